@@ -59,6 +59,11 @@ class Gauge:
         self.events: list[tuple[str, Any]] = []
         self.unknown_peers = 0
         self.raise_keys: set[Any] = set()  # fault injection: serve() of these connections raises when it is done
+        # first-bind tracing (RpcServer._notify_transport / on_serve_start), per handler thread
+        self.thread_key: dict[int, Any] = {}  # handler thread ident -> connection key
+        self.lock_waits: set[int] = set()  # threads that reached `with self._transport_lock`
+        self.notify_done: set[int] = set()  # threads whose _notify_transport call returned
+        self.hooks: list[dict[str, Any]] = []  # on_serve_start invocations: {ident, gate, released, done}
 
     def enter(self, key: Any) -> None:
         with self.cond:
@@ -76,6 +81,84 @@ class Gauge:
     def wait_for(self, pred: Any, timeout: float = STEP_TIMEOUT) -> bool:
         with self.cond:
             return self.cond.wait_for(pred, timeout)
+
+    def note(self, what: str, ident: int) -> None:
+        with self.cond:
+            getattr(self, what).add(ident)
+            self.cond.notify_all()
+
+    def ident_of(self, key: Any) -> int | None:
+        for t, k in self.thread_key.items():
+            if k == key:
+                return t
+        return None
+
+
+class TracedLock:
+    """Stands in for RpcServer._transport_lock: records which handler threads reached the lock (trace point only)."""
+
+    def __init__(self, gauge: Gauge) -> None:
+        self._lock = threading.Lock()
+        self._gauge = gauge
+
+    def acquire(self, *a: Any, **k: Any) -> bool:
+        self._gauge.note("lock_waits", threading.get_ident())
+        return self._lock.acquire(*a, **k)
+
+    def release(self) -> None:
+        self._lock.release()
+
+    def locked(self) -> bool:
+        return self._lock.locked()
+
+    def __enter__(self) -> bool:
+        return self.acquire()
+
+    def __exit__(self, *exc: Any) -> None:
+        self.release()
+
+
+class C41Impl(I.InterpImpl):
+    """The interpreter service plus worker state that the documented one-shot ``on_serve_start`` hook (re)initialises.
+
+    Unary programs carrying ``"kv": ["put", key, int] | ["get", key]`` write / read the worker-local store
+    (put answers 0, get answers the stored int or -1); every other program is the plain interpreter.
+    With ``park`` set the hook is a scheduling point: it announces itself on the gauge and waits for the controller.
+    """
+
+    def __init__(self, gauge: Gauge, park: bool) -> None:
+        self.gauge, self.park = gauge, park
+        self.store: dict[str, int] | None = None
+        self.starts = 0
+        self._lock = threading.Lock()
+
+    def on_serve_start(self, kind: Any) -> None:
+        g = self.gauge
+        h = {"ident": threading.get_ident(), "gate": threading.Event(), "released": False, "done": False}
+        with g.cond:
+            g.hooks.append(h)
+            g.cond.notify_all()
+        if self.park:
+            h["gate"].wait(STEP_TIMEOUT)
+        with self._lock:
+            self.store = {}  # fresh worker-local store
+            self.starts += 1
+        with g.cond:
+            h["done"] = True
+            g.cond.notify_all()
+
+    def unary(self, pid: int, ctx: Any) -> int:  # type: ignore[override]
+        prog = I.lookup(pid)
+        kv = prog.get("kv")
+        if kv is None:
+            return super().unary(pid, ctx)
+        I._emit_logs(prog.get("logs") or [], ctx.client_log)
+        with self._lock:
+            assert self.store is not None, "worker store used before on_serve_start"
+            if kv[0] == "put":
+                self.store[kv[1]] = int(kv[2])
+                return 0
+            return int(self.store.get(kv[1], -1))
 
 
 def _peer_key(transport: Any) -> Any:
@@ -101,6 +184,8 @@ class GaugedServer(RpcServer):
         if key is None:
             g.unknown_peers += 1
             key = ("anon", id(transport))
+        with g.cond:
+            g.thread_key[threading.get_ident()] = key
         g.enter(key)
         try:
             super().serve(transport)
@@ -111,14 +196,29 @@ class GaugedServer(RpcServer):
             g.exit(key)
 
 
-class ServerHandle:
-    """One long-lived threaded server (kind, max_connections); reused by all cases of a configuration."""
+    def _notify_transport(self, kind: Any, capabilities: Any) -> None:
+        try:
+            super()._notify_transport(kind, capabilities)
+        finally:
+            self.gauge.note("notify_done", threading.get_ident())
 
-    def __init__(self, kind: str, maxc: int | None, tmpdir: str) -> None:
-        self.kind, self.maxc, self.tmpdir = kind, maxc, tmpdir
-        self.server = GaugedServer(I.Interp, I.InterpImpl())
+
+_HANDLE_SEQ = [0]
+
+
+class ServerHandle:
+    """One threaded server (kind, max_connections).  Long-lived ones are reused by all cases of a configuration;
+    ``park_hook`` ones are fresh servers for the first-bind scenarios (on_serve_start is a scheduling point)."""
+
+    def __init__(self, kind: str, maxc: int | None, tmpdir: str, park_hook: bool = False) -> None:
+        self.kind, self.maxc, self.tmpdir, self.park_hook = kind, maxc, tmpdir, park_hook
         self.gauge = Gauge()
+        self.impl = C41Impl(self.gauge, park_hook)
+        self.server = GaugedServer(I.Interp, self.impl)
         self.server.gauge = self.gauge
+        self.server._transport_lock = TracedLock(self.gauge)  # type: ignore[assignment]
+        _HANDLE_SEQ[0] += 1
+        seq = _HANDLE_SEQ[0]
         self.addr: Any = None
         self.died: list[BaseException] = []
         bound = threading.Event()
@@ -126,7 +226,7 @@ class ServerHandle:
         def main() -> None:
             try:
                 if kind == "unix":
-                    path = os.path.join(tmpdir, f"srv-{maxc}.sock")
+                    path = os.path.join(tmpdir, f"srv-{maxc}-{seq}.sock")
                     serve_unix(self.server, path, threaded=True, max_connections=maxc, on_bound=lambda p: (setattr(self, "addr", p), bound.set()))
                 else:
                     serve_tcp(self.server, "127.0.0.1", 0, threaded=True, max_connections=maxc, on_bound=lambda h, p: (setattr(self, "addr", (h, p)), bound.set()))
@@ -286,7 +386,8 @@ class Client:
 
 # --------------------------------------------------------------------------- the controller
 def run_case(handle: ServerHandle, scripts: list[list[list[Any]]], rng: Any, tag: str, presend: bool = True,
-             fixed_schedule: list[int] | None = None, is_crash: Any = None, serve_raises: tuple[int, ...] = ()) -> dict[str, Any]:
+             fixed_schedule: list[int] | None = None, is_crash: Any = None, serve_raises: tuple[int, ...] = (),
+             arrivals_during_first_bind: int = 1) -> dict[str, Any]:
     """Run the connection scripts concurrently under a seeded client-side schedule.
 
     Returns {"traces": per connection list of per-call traces, "schedule": observed linearisation (list of connection
@@ -309,6 +410,8 @@ def run_case(handle: ServerHandle, scripts: list[list[list[Any]]], rng: Any, tag
     served: list[int] = []
     stutters = 0
     fixed = list(fixed_schedule) if fixed_schedule is not None else None
+    hook_seen_at = -1
+    arrivals = max(1, min(n, arrivals_during_first_bind))
 
     def entered(c: Client) -> bool:
         return ("enter", c.key) in g.events
@@ -336,11 +439,50 @@ def run_case(handle: ServerHandle, scripts: list[list[list[Any]]], rng: Any, tag
             raise Hang(f"connection {i}: a slot is free but serve() was not entered")
         phase[i] = "serving"
         log(i)
-        if c.pending:
+        if handle.park_hook:
+            settle()
+        if c.pending and (not handle.park_hook or passed_notify(i)):
             if not c.wait():
                 raise Hang(f"connection {i}: request sent while queued was not answered after the connection got its slot")
             c.pending = False
             after_step(i)
+
+    # ---- first-bind scheduling (fresh servers with park_hook): on_serve_start is a scheduling point
+    def parked() -> list[dict[str, Any]]:
+        with g.cond:
+            return [h for h in g.hooks if not h["released"] and not h["done"]]
+
+    def passed_notify(j: int) -> bool:
+        """The handler thread of connection j is past RpcServer._notify_transport (it can answer requests)."""
+        with g.cond:
+            t = g.ident_of(clients[j].key)
+            return t is not None and t in g.notify_done
+
+    def settled(j: int) -> bool:
+        with g.cond:
+            t = g.ident_of(clients[j].key)
+            if t is None:
+                return False
+            if t in g.notify_done:
+                return True
+            open_hooks = [h for h in g.hooks if not h["done"]]
+            if any(h["ident"] == t for h in open_hooks):
+                return True  # inside the hook
+            return t in g.lock_waits and bool(open_hooks)  # waiting for the bind lock held by the hook's thread
+
+    def settle() -> None:
+        for j in range(n):
+            if phase[j] == "serving" and not g.wait_for(lambda j=j: settled(j)):
+                raise Hang(f"connection {j}: its handler neither finished binding the transport nor waits for it")
+
+    def release_hooks(hs: list[dict[str, Any]]) -> None:
+        for h in hs:
+            h["released"] = True
+            h["gate"].set()
+        for h in hs:
+            if not g.wait_for(lambda h=h: h["done"]):
+                raise Hang("on_serve_start did not return after it was released")
+        settle()
 
     def after_step(i: int) -> None:
         """Log a client step of a served connection; a step that made serve() raise ends the server side at once."""
@@ -372,7 +514,41 @@ def run_case(handle: ServerHandle, scripts: list[list[list[Any]]], rng: Any, tag
     try:
         while any(p != "done" for p in phase):
             live = [i for i in range(n) if phase[i] != "done"]
-            if fixed:
+            i = -1
+            if handle.park_hook:
+                settle()
+                ph_ = parked()
+                if ph_:
+                    blocked = {j for j in range(n) if phase[j] == "serving" and not passed_notify(j)}
+                    if not any(h["released"] for h in g.hooks):
+                        # the very first bind: let `arrivals` connections arrive while the hook is still running
+                        fresh = [j for j in live if phase[j] == "fresh"]
+                        if sum(1 for p in phase if p != "fresh") >= arrivals or not fresh:
+                            release_hooks(ph_)
+                            continue
+                        i = rng.choice(fresh)
+                    else:
+                        # the hook runs AGAIN while connections are being served: let one of them take a step, then let it finish
+                        if hook_seen_at < 0:
+                            hook_seen_at = len(schedule)
+                        pick = [j for j in live if phase[j] in ("serving", "zombie") and j not in blocked and not clients[j].pending]
+                        pick = pick or [j for j in live if phase[j] == "fresh"]
+                        if len(schedule) > hook_seen_at or not pick:
+                            release_hooks(ph_)
+                            hook_seen_at = -1
+                            continue
+                        i = rng.choice(pick)
+                else:
+                    # a request sent while the handler was still binding the transport is answered now
+                    for j in range(n):
+                        if phase[j] == "serving" and clients[j].pending and passed_notify(j):
+                            if not clients[j].wait():
+                                raise Hang(f"connection {j}: request sent during the bind was not answered")
+                            clients[j].pending = False
+                            after_step(j)
+            if i >= 0:
+                pass
+            elif fixed:
                 i = fixed.pop(0)
                 if i >= n or phase[i] == "done":
                     continue
@@ -437,6 +613,9 @@ def run_case(handle: ServerHandle, scripts: list[list[list[Any]]], rng: Any, tag
             else:
                 probes[c.cid] = "no answer"
     finally:
+        for h_ in list(g.hooks):
+            h_["released"] = True
+            h_["gate"].set()
         for c in clients:
             c.quit()
             if c.transport is not None:
@@ -465,5 +644,6 @@ def run_case(handle: ServerHandle, scripts: list[list[list[Any]]], rng: Any, tag
         "phases": phase,
         "gauge_events": gl,
         "probes": probes,
+        "hook_runs": handle.impl.starts,
         "anomalies": anomalies,
     }
